@@ -448,6 +448,7 @@ class Boss:
     S0_empty.upon(rx_unwelcome, enter=S3_closing, outputs=[close_unwelcome])
     S0_empty.upon(got_code, enter=S1_lonely, outputs=[do_got_code])
     S0_empty.upon(rx_error, enter=S3_closing, outputs=[close_error])
+    S0_empty.upon(scared, enter=S3_closing, outputs=[close_scared])
     S0_empty.upon(error, enter=S4_closed, outputs=[W_close_with_error, send_status_closed])
 
     S1_lonely.upon(rx_unwelcome, enter=S3_closing, outputs=[close_unwelcome])
